@@ -124,7 +124,7 @@ fn run_both(tier: Tier, seed: u64, c31: bool) -> i32 {
         )
     };
     let scratch = Scratch::new(if c31 { "c31" } else { "c03" });
-    let n_dbs = tier.pick(160, 2500);
+    let n_dbs = tier.pick(90, 2500);
     let per_db = tier.pick(12, 20);
     let seeds: Vec<u64> = (0..n_dbs).map(|i| seed.wrapping_mul(2_000_003).wrapping_add(i as u64)).collect();
     let sp = scratch.path().to_path_buf();
